@@ -599,6 +599,21 @@ pub fn run(a: &ShardArgs) -> serde_json::Value {
                 continue;
             }
             let src = decorated_sources(&cfg, o);
+            // the twin features come from a parser that finishes late: ParsingFinished arrives
+            // after their events (reporters that buffer until then must still tell them apart)
+            let late_pf: Vec<Ev>;
+            let stream: &Vec<Ev> = if o.deco == Decoration::DupPathless {
+                let mut v = stream.clone();
+                if let Some(i) = v.iter().position(|e| matches!(e, Ev::ParsingFinished { .. })) {
+                    let pf = v.remove(i);
+                    let fin = v.iter().position(|e| *e == Ev::Finished).unwrap_or(v.len());
+                    v.insert(fin, pf);
+                }
+                late_pf = v;
+                &late_pf
+            } else {
+                &stream
+            };
             evaluations += 1;
             let fx = facts(&src, &stream);
             if fx.iter().any(|f| f["status"] != "passed") {
@@ -636,7 +651,7 @@ pub fn run(a: &ShardArgs) -> serde_json::Value {
                         // the reports sit behind `Normalize`: their cases follow the normalised order
                         "facts": fx, "attempts": attempts(&src, &{
                             let mut r = crate::h_norm::RefNorm::default();
-                            for e in &stream {
+                            for e in stream.iter() {
                                 r.handle(e.clone());
                             }
                             r.out
